@@ -25,7 +25,8 @@ theorem C18_tables :
     validGuards = [.notSuccessful, .hashDiffersUnlessGenerator, .outputMissingUnlessAlias, .outputInfoDiffers] ∧
     decisionOrder = [.cancelled, .phony, .updateIfNewer, .simulate, .skip, .run] ∧
     okInputKinds = [.existingInput, .successfulCommand] ∧ missingInputKind = .missingInput ∧
-    inputRuleKeyIsRequestedKey = true ∧ phonyPropagatesSkip = true := by decide
+    inputRuleKeyIsRequestedKey = true ∧ phonyPropagatesSkip = true ∧
+    badInputDisablesUpdateIfNewer = true ∧ discoveredUnconditional = true := by decide
 
 /-! ### validity of a stored command result -/
 
@@ -270,19 +271,30 @@ theorem C18_failed_input_skips (ctx : Ctx) (c : Cmd) (ins : Inputs BuildValue) (
     cases ctx.cancelled <;> cases c.phony <;> cases hs : shortcut ctx c (accumulate c ins) prior outs <;>
       cases ctx.simulate <;> simp
 
-/-- the full-strength reading ("always yields a Skipped value") is false of the code: the shortcut is tested first -/
-def C18_failed_input_skips_full : Prop :=
-  ∀ (ctx : Ctx) (c : Cmd) (ins : Inputs BuildValue) (prior : Option BuildValue) (outs : List FInfo) (v : BuildValue),
-    (v ∈ ins.explicit ∨ v ∈ ins.implicit) → v.kind = .failedCommand → ctx.cancelled = false →
-    inputsAvailable ctx c (accumulate c ins) prior outs = .complete .skipped false
+/-- the full-strength reading: such a command ALWAYS completes with a Skipped value, whatever the timestamps of its
+outputs say (repair F43: before it the update-if-newer test, which comes first in the source, could declare the command
+up to date with a *successful* value when the build was not stopped, i.e. `-k` ≠ 1, and a command at distance two of
+the failed one then ran on the stale output - replayed on the real tool, corpus/C18/f43-*.json). -/
+theorem C18_failed_input_skips_full (ctx : Ctx) (c : Cmd) (ins : Inputs BuildValue) (prior : Option BuildValue)
+    (outs : List FInfo) (v : BuildValue) (hv : v ∈ ins.explicit ∨ v ∈ ins.implicit)
+    (hk : v.kind = .failedCommand ∨ v.kind = .skippedCommand ∨ v.kind = .missingInput) :
+    shortcut ctx c (accumulate c ins) prior outs = false ∧
+    inputsAvailable ctx c (accumulate c ins) prior outs = .complete .skipped false := by
+  have hbad : okInputKinds.contains v.kind = false := by rcases hk with h | h | h <;> rw [h] <;> decide
+  have hmem : v ∈ received ins := by rw [received_eq]; exact List.mem_append.2 hv
+  have hskip : (accumulate c ins).shouldSkip = true := foldl_skip_of_mem _ _ v hmem hbad
+  have hcan : (accumulate c ins).canUpdateIfNewer = false := foldl_can_bad _ _ v hmem hbad
+  have hs : shortcut ctx c (accumulate c ins) prior outs = false := by simp [shortcut, hcan]
+  refine ⟨hs, ?_⟩
+  simp only [inputsAvailable, decisionOrder, firstSome, decide1, phonyPropagatesSkip, hskip, hs, Bool.true_and, ↓reduceIte]
+  cases ctx.cancelled <;> cases c.phony <;> cases ctx.simulate <;> simp
 
-theorem C18_failed_input_skips_full_false : ¬ C18_failed_input_skips_full := by
-  intro h
-  have := h {} { hash := 1 } ⟨[.failed, .existing ⟨1, 2, 3, 4, ⟨5, 0⟩⟩], [], []⟩
-    (some { kind := .successfulCommand, hash := 1, infos := [⟨1, 7, 3, 4, ⟨6, 0⟩⟩] }) [⟨1, 7, 3, 4, ⟨6, 0⟩⟩] .failed
-    (Or.inl (by simp)) rfl rfl
-  revert this
-  decide
+/-- the input on which the unrepaired code answered `complete (successful) false` through the shortcut: one failed
+input, one existing input older than the output, a prior successful result with the same hash -/
+example : inputsAvailable {} { hash := 1 }
+    (accumulate { hash := 1 } ⟨[.failed, .existing ⟨1, 2, 3, 4, ⟨5, 0⟩⟩], [], []⟩)
+    (some { kind := .successfulCommand, hash := 1, infos := [⟨1, 7, 3, 4, ⟨6, 0⟩⟩] }) [⟨1, 7, 3, 4, ⟨6, 0⟩⟩] =
+    .complete .skipped false := by decide
 
 example : inputsAvailable {} { hash := 1 } (accumulate { hash := 1 } ⟨[.failed], [], []⟩) none [FInfo.missing] =
     .complete .skipped false := by decide
@@ -298,6 +310,59 @@ theorem C18_restat_force (c : Cmd) (outs : List FInfo) (depsOk : Bool) :
   simp [afterExecute, forceIsNotRestat]
 
 example : (afterExecute { hash := 1, restat := true } true true []).2 = false := by decide
+
+/-! ### depfile-discovered inputs -/
+
+/-- "depfile-discovered inputs trigger rebuilds" (recording half): after a successful execution of a command with a
+deps style, EVERY entry of its depfile whose path normalises is in the dependency list the engine stores, as a
+dependency that is not order-only - whatever else that path is to the command: nothing in the list of declared
+inputs (`ins`, in particular `ins.orderOnly`) and no further condition (`extra`) can remove it. -/
+theorem C18_discovered_inputs_recorded {α : Type} (c : Cmd) (ins : Inputs α) (entries : List (Option α))
+    (extra : α → Bool) (p : α) (hd : c.hasDeps = true) (hp : some p ∈ entries) :
+    (⟨p, false⟩ : DepEntry α) ∈ dependencyList c ins entries extra := by
+  have hu : discoveredUnconditional = true := by decide
+  simp only [dependencyList, discovered, hd, hu, Bool.true_or, ↓reduceIte, List.mem_append, List.mem_map,
+    List.mem_filter, List.mem_filterMap, id]
+  exact Or.inr ⟨p, ⟨⟨some p, hp, rfl⟩, trivial⟩, rfl⟩
+
+/-- (triggering half) hence a change of such a path makes the engine's scan re-run the command's task - also when
+the same path is among the command's order-only inputs (the generated-header idiom
+`build foo.o: cc foo.c || gen.h` + a depfile naming `gen.h`) - and the task then executes the command
+(`C18_deps_never_shortcut`). -/
+theorem C18_discovered_input_triggers {α : Type} (c : Cmd) (ins : Inputs α) (entries : List (Option α))
+    (extra : α → Bool) (changed : α → Bool) (p : α) (hd : c.hasDeps = true) (hp : some p ∈ entries)
+    (hc : changed p = true) :
+    triggersRerun (dependencyList c ins entries extra) changed = true := by
+  simp only [triggersRerun, List.any_eq_true]
+  exact ⟨⟨p, false⟩, C18_discovered_inputs_recorded c ins entries extra p hd hp, by simp [hc]⟩
+
+/-- (order-only half, on the same dependency list) a path that is ONLY an order-only input - not an explicit or
+implicit input and not named by the depfile - never triggers: the list holds it with `orderOnly = true` only. -/
+theorem C18_order_only_alone_never_triggers {α : Type} (c : Cmd) (ins : Inputs α) (entries : List (Option α))
+    (extra : α → Bool) (changed : α → Bool)
+    (h : ∀ p, changed p = true → p ∉ ins.explicit ∧ p ∉ ins.implicit ∧ some p ∉ entries) :
+    triggersRerun (dependencyList c ins entries extra) changed = false := by
+  simp only [triggersRerun, Bool.eq_false_iff, ne_eq, List.any_eq_true, not_exists, not_and]
+  intro d hdm hch
+  simp only [Bool.and_eq_true, Bool.not_eq_true'] at hch
+  obtain ⟨hoo, hchg⟩ := hch
+  obtain ⟨he, hi, hent⟩ := h d.key hchg
+  simp only [dependencyList, requestDeps, requests, explicitReq, implicitReq, orderOnlyReq, discovered,
+    List.map_append, List.map_map, List.mem_append, List.mem_map, Function.comp] at hdm
+  rcases hdm with ((⟨x, hx, rfl⟩ | ⟨x, hx, rfl⟩) | ⟨x, hx, rfl⟩) | hdm
+  · exact he hx
+  · exact hi hx
+  · simp at hoo
+  · split at hdm
+    · simp only [List.mem_map, List.mem_filter, List.mem_filterMap, id] at hdm
+      obtain ⟨q, ⟨⟨o, ho, rfl⟩, _⟩, rfl⟩ := hdm
+      exact hent ho
+    · cases hdm
+
+example : triggersRerun (dependencyList { hash := 1, hasDeps := true } ⟨[1], [], [2]⟩ [some 1, some 2] (fun _ => false))
+    (fun p => p == 2) = true := by decide
+example : triggersRerun (dependencyList { hash := 1, hasDeps := true } ⟨[1], [], [2]⟩ [some 1, none] (fun _ => false))
+    (fun p => p == 2) = false := by decide
 
 /-- a phony command never executes anything; it propagates a change exactly when one of its outputs is not a file -/
 theorem C18_phony_never_executes (ctx : Ctx) (c : Cmd) (a : Acc) (prior : Option BuildValue) (outs : List FInfo)
